@@ -72,7 +72,7 @@ type Recorder struct {
 }
 
 // maxFingerprints bounds the memory of the distinct-case bookkeeping per process.
-const maxFingerprints = 400000
+const maxFingerprints = 1000000
 
 var (
 	regMu    sync.Mutex
